@@ -87,4 +87,19 @@ def exchangeNetIfCondsExpected : String :=
   "network == NetworkTCP | err != nil | err != nil | isExpectedConnErr(err) | err != nil | err != nil"
 theorem exchange_net_if_conds_src : exchange_net_if_conds = exchangeNetIfCondsExpected := by decide
 
+/-- Fifth audit, as fixed: the start-up check of `domain_template` packs the name made with the
+longest random part (16 digits replace every placeholder) and bounds its wire length; the
+configuration's `validate` calls it on `c.DomainTmpl` after the case list. -/
+theorem tmpl_validate_if_conds_src : tmpl_validate_if_conds = "err != nil | n > maxDomainNameWireLen" := by decide
+theorem tmpl_validate_longest_src :
+    tmpl_validate_longest = "strings.Repeat(\"f\", maxRandomPlaceholderLen)" := by decide
+theorem tmpl_validate_domain_src :
+    tmpl_validate_domain = "strings.ReplaceAll(tmpl, randomPlaceholder, longest)" := by decide
+theorem tmpl_validate_pack_src : tmpl_validate_pack = "dns.Fqdn(domain), buf, 0, nil, false" := by decide
+theorem hc_config_validates_tmpl_src : hc_config_validates_tmpl = "c.DomainTmpl" := by decide
+set_option maxRecDepth 4096 in
+theorem hc_config_validate_cases_src : hc_config_validate_cases =
+    "c == nil | !c.Enabled | c.DomainTmpl == \"\" | c.Interval.Duration <= 0 | c.Timeout.Duration <= 0 | c.BackoffDuration.Duration <= 0" := by
+  decide
+
 end Agd.Tie.C17
